@@ -56,16 +56,40 @@ def _reduce(a, axis, pick):
     return out
 
 
-def s_min(a, axis=None, *args, **kw):
-    if _has_sym(a) and not args and not {k for k in kw if kw[k] is not None and k not in ("keepdims",)}:
-        r = _reduce(a, axis, smin)
+def _reduce_kw(a, axis, pick, kw):
+    """reduction over an int / tuple axis with optional keepdims (dask passes axis=(k,), keepdims=True)"""
+    keep = kw.get("keepdims", False) is True
+    a = np.asarray(a)
+    if axis is None:
+        r = _reduce(a, None, pick)
+        if keep:
+            out = np.empty((1,) * a.ndim, dtype=object)
+            out[(0,) * a.ndim] = r
+            return out
         return r
+    axes = sorted({ax % a.ndim for ax in (axis if isinstance(axis, tuple) else (axis,))}, reverse=True)
+    r = a
+    for ax in axes:
+        r = _reduce(r, ax, pick)
+    if keep:
+        for ax in sorted(axes):
+            r = np.expand_dims(r, ax)
+    return r
+
+
+def _plain(kw):
+    return all(k == "keepdims" or v is None for k, v in kw.items()) and kw.get("keepdims", False) in (False, True)
+
+
+def s_min(a, axis=None, *args, **kw):
+    if _has_sym(a) and not args and _plain(kw):
+        return _reduce_kw(a, axis, smin, kw)
     return _ORIG["min"](a, axis, *args, **kw)
 
 
 def s_max(a, axis=None, *args, **kw):
-    if _has_sym(a) and not args and not {k for k in kw if kw[k] is not None and k not in ("keepdims",)}:
-        return _reduce(a, axis, smax)
+    if _has_sym(a) and not args and _plain(kw):
+        return _reduce_kw(a, axis, smax, kw)
     return _ORIG["max"](a, axis, *args, **kw)
 
 
